@@ -28,9 +28,9 @@ def run(ck):
     if ck.replay:
         vkit.write_ndjson(scen_path, [json.load(open(ck.replay))["replay"]["scenario"]])
     else:
-        cfgs = ["PolicerCluster_live3.cfg", "PolicerCluster_rounds3.cfg"]
+        cfgs = ["PolicerCluster_live3.cfg", "PolicerCluster_rounds3.cfg", "PolicerCluster_live3x2.cfg", "PolicerCluster_rounds3x2.cfg"]
         if thorough:
-            cfgs += ["PolicerCluster_live4.cfg", "PolicerCluster_rounds4.cfg"]
+            cfgs += ["PolicerCluster_live4.cfg", "PolicerCluster_rounds4.cfg", "PolicerCluster_rounds4x2.cfg"]
         jobs = [("PolicerCluster", c, dict(timeout=2400, workers=4)) for c in cfgs]
         if os.environ.get("VERIF_SKIP_MODELS"):     # developer switch for mutation testing only
             jobs = []
@@ -41,8 +41,14 @@ def run(ck):
         ck.setcov("enumerated_3_node_scenarios", len(sc))
         if not thorough:                    # every 2nd in the quick tier, offset by seed
             sc = [x for i, x in enumerate(sc) if i % 2 == ck.seed % 2]
+        p1 = os.path.join(ck.tmp, "all3two.ndjson")     # every policy of two rules over lists of <= 2 of 3 nodes
+        ck.harness(binp, ["c27", "all", 3, p1, "two"])
+        sc2 = vkit.read_ndjson(p1)
+        ck.setcov("enumerated_3_node_two_rule_scenarios", len(sc2))
+        stride = 2 if thorough else 16
+        sc += [x for i, x in enumerate(sc2) if i % stride == ck.seed % stride]
         p2 = os.path.join(ck.tmp, "rnd.ndjson")
-        ck.harness(binp, ["c27", "rnd", 1500 if thorough else 120, 6, p2])
+        ck.harness(binp, ["c27", "rnd", 1500 if thorough else 90, 6, p2])
         sc += vkit.read_ndjson(p2)
         vkit.write_ndjson(scen_path, sc)
     trace = os.path.join(ck.tmp, "trace.ndjson")
@@ -56,13 +62,16 @@ def run(ck):
     ck.setcov("trace_events", len(ev))
     ck.setcov("checks_with_replication", sum(1 for e in ev if e["ev"] == "check" and e["tasks"]))
     ck.setcov("checks_with_removal", sum(1 for e in ev if e["ev"] == "check" and e["del"] != "none"))
+    ck.setcov("object_carrying_task_events", sum(1 for e in ev if e["ev"] == "task"))
+    ck.setcov("multi_rule_scenarios", sum(1 for e in ev if e["ev"] == "init" and len(e["rules"]) > 1))
     rounds = {}
     for e in ev:
         if e["ev"] == "end":
             rounds[e["round"]] = rounds.get(e["round"], 0) + 1
     ck.setcov("stable_rounds_until_quiet_histogram", rounds)
     ck.sample({"trace_head": ev[:5]})
-    if not ck.replay and (ck.cov["checks_with_replication"] < 20 or ck.cov["checks_with_removal"] < 10):
+    if not ck.replay and (ck.cov["checks_with_replication"] < 20 or ck.cov["checks_with_removal"] < 10
+                          or ck.cov["object_carrying_task_events"] < 10 or ck.cov["multi_rule_scenarios"] < 30):
         raise vkit.Infra("vacuous run: %s" % ck.cov)
     if not v.ok:
         pos = vkit.stuck_position(v) or 1
@@ -85,10 +94,11 @@ def run(ck):
         models.finish()
         ck.setcov("exhaustive", True)
         ck.setcov("liveness", "<>[]Converged under WF of every node's check, SPECIFICATION Live, no constraint")
-        ck.setcov("constants", "3 nodes (thorough: + 4 nodes), every list of 1..N nodes, REP 1-3, every non-empty initial distribution; bounded convergence MaxRounds=3")
+        ck.setcov("constants", "3 nodes (thorough: + 4 nodes): one rule with every list, REP 1-3, and two rules over lists of <= 2 nodes, REP 1-2; every non-empty initial distribution; bounded convergence MaxRounds=3")
     ck.assumptions += [
         "a policy check of one object by one node is one atomic step (replication inside a check is synchronous in the code); checks of different nodes interleave arbitrarily",
         "a copy marked redundant is removed at once (the node's GC is run synchronously after its check; in production it stays readable until the GC cycle)",
-        "processObject is called directly for the object (the listing/ticker loop of shardPolicyWorker is not exercised); REGULAR objects, one REP rule; EC recovery is not part of this check",
+        "processObject is called directly for the object (the listing/ticker loop of shardPolicyWorker is not exercised); REGULAR objects, 1-2 REP rules; EC recovery is not part of this check",
+        "quiescence = no task with candidate nodes and no removal: with overlapping rules the code keeps handing the replicator tasks with an EMPTY candidate list (phantom shortage: a holder remembered from an earlier rule does not lower the shortage of a later rule); such tasks copy nothing and are not counted as replicating",
         "fakes: network map and node-to-node connections (HEAD -> target engine.Head, REPLICATE -> target engine.Put, 'down' = connection error)",
     ]
